@@ -24,7 +24,7 @@ ASSUMPTIONS = ["liberal ABNF (strict + blank space inside singular-query bracket
 DECIDING_MONITORS = ["M-compile"]
 
 ALPHABET28 = ["$", "@", ".", "..", "[", "]", "(", ")", "?", ",", ":", "*", "!", "&&", "||", "==", "!=", "<", "<=", "'a'", '"a"', "1", "-1", "01", "1.5", "a", "true", "f("]
-EDIT_ALPHABET = list("$@.[]()?,:*!&|=<>'\"\\ \n\t01-+eEa_") + ["é", " ", "\x0b", "\x0c", " ", "\x00", "-0", "00", "&&", "||", ".."]
+EDIT_ALPHABET = list("$@.[]()?,:*!&|=<>'\"\\ \n\t01-+eEa_") + ["\ufeff", "\u200b", "é", " ", "\x0b", "\x0c", " ", "\x00", "-0", "00", "&&", "||", ".."]
 
 
 def plan(tier, seed, nproc, scale):
@@ -38,6 +38,11 @@ def plan(tier, seed, nproc, scale):
 
 
 # --- named rule-violation operators: text -> list of (name, mutated text)
+def _inside_quotes(text, pos):
+    """Conservative: is there any quote character before pos? (then the insertion could land inside a literal or a name)"""
+    return "'" in text[:pos] or '"' in text[:pos]
+
+
 def violations_of(R, text):
     out = []
 
@@ -49,6 +54,10 @@ def violations_of(R, text):
     add("leading-space", " " + text)
     add("trailing-space", text + R.choice([" ", "\n", "\t"]))
     add("text-before-root", R.choice(["a", "$", ".", "x "]) + text)
+    inv = R.choice(["\ufeff", "\u200b", "\u2060", "\u00a0", "\ufffe", "\u00ad", "\u200e", "\x7f", "\x00"])
+    add("invisible-before-root", inv + text)
+    add("invisible-after-query", text + inv)
+    add("invisible-inside", text[:pos] + inv + text[pos:] if not _inside_quotes(text, pos) else text)
     add("text-after-query", text + R.choice(["a", "$", "]", ")", "'x'", ".", "..", "[", ",", "1"]))
     for pat, rep, name in [(".", ". ", "space-after-dot"), ("..", ".. ", "space-after-dotdot"), ("..", ". .", "split-dotdot"), ("(", " (", "space-before-call-paren"),
                            ("==", "= =", "split-operator"), ("==", "=", "single-equals"), ("==", "===", "triple-equals"), ("&&", "&", "single-amp"), ("||", "|", "single-pipe"),
@@ -208,6 +217,17 @@ def run_shard(spec, rec):
                 handle(jp, rec, R, R.choice(["", "$"]) + t, "garbage", lib, spec["classify_rejected"])
                 n += 1
         custom_env_battery(rec, R, lib)
+        # parenthesised comparands inside runs of parentheses (a parenthesised expression is never a comparable)
+        for c_ in ["@.a", "'x'", "1", "length(@.a)", "$.b", "value(@.a)", "@", "true", "@['a']", "count(@.*)"]:
+            for tmpl in ["$[?((C) == 1)]", "$[?((C)==1)]", "$[?!((C) == 1)]", "$[?(1 == (C))]", "$[?(((C)) == 1)]", "$[?((C) == (C))]", "$[?(@.x && ((C)) < 2)]", "$[?((C) == 1 || @.y)]",
+                         "$[?((C)) == 1]", "$[?(C) == 1]", "$[?( (C) != 1)]", "$[?((C) == 1) && @.y]", "$[?@.y && ((C) >= 1)]", "$[?(((C) == 1))]", "$[?((!(C)) == 1)]", "$[?(((C) == 1) == true)]"]:
+                handle(jp, rec, R, tmpl.replace("C", c_), "operator:paren-comparand-in-group", lib, 1.0)
+                rec.feat("operator:paren-comparand-in-group")
+        for inv in ["\ufeff", "\u200b", "\u2060", "\u00a0", "\ufffe", "\u00ad", "\u200e", "\x7f", "\x00", "\u0085", "\u2028", "\u3000", "\u180e"]:
+            for base in ["$", "$.a", "$[0]", "$..*", "$[?@.a == 1]", "$['a']"]:
+                for t in (inv + base, base + inv, inv + inv + base, base[:1] + inv + base[1:]):
+                    handle(jp, rec, R, t, "operator:invisible-character", lib, 1.0)
+                    rec.feat("operator:invisible-character")
     else:
         k = 0
         for L in range(0, spec["maxlen"] + 1):
